@@ -723,11 +723,13 @@ func nonCtxArgs(c ssa.CallInstruction) []ssa.Value {
 }
 
 func runC10(e *Engine, r *Report, tier string) {
-	r.Explanation = "C10, structural clauses. Decided: R1 at every call in the precompile packages to an API that takes value from / acts for an account (subject table: pool add/cancel/fee, outgoing bridge call, EVM->coin conversion, denom conversion, ERC-20 transferFrom, share allowance owner, IBC transfer sender, staking/distribution message delegator) the subject argument has contract.Caller() as its only root — never call data, never evm.Origin; R2 the single exception: the share-transfer routine may be called with a call-data `from` only after the allowance check-and-decrement on (validator, that from, Caller(), same shares), whose shape is `allowance < x -> error; set(allowance - x)`; R3 both dispatchers test `readonly && !IsReadonly()` and the governance switch (with the 4-byte selector used for dispatch) before method.Run, each failing with an error; the go-ethereum fork passes readOnly=true for CALLCODE/DELEGATECALL/STATICCALL and false for CALL; R4 the switch check returns an error for a disabled address and for address/method. Not decided: what SDK keepers do to third parties internally."
+	r.Explanation = "C10, structural clauses. Decided: R1 at every call in the precompile packages to an API that takes value from / acts for an account (subject table: pool add/cancel/fee, outgoing bridge call, EVM->coin conversion, denom conversion, ERC-20 transferFrom, share allowance owner, IBC transfer sender, staking/distribution message delegator) the subject argument has contract.Caller() as its only root — never call data, never evm.Origin; R2 the single exception: the share-transfer routine may be called with a call-data `from` only after the allowance check-and-decrement on (validator, that from, Caller(), same shares), whose shape is `allowance < x -> error; set(allowance - x)`; R3 both dispatchers test `readonly && !IsReadonly()` and the governance switch (with the 4-byte selector used for dispatch) before method.Run, each failing with an error; the go-ethereum fork passes readOnly=true for CALLCODE/DELEGATECALL/STATICCALL and false for CALL; R4 the switch check returns an error for a disabled address and for address/method; R6 a routine that moves coins out of the precompile's own account (the native coins attached to calls accumulate there) is called only with contract.Value() itself or with an amount that a dominating `amount.Cmp(value) != 0 -> error` equates with it — otherwise a caller could take what other callers left on that account. Not decided: what SDK keepers do to third parties internally."
 	r.Trusted = []string{"vm.Contract.Caller() is the direct caller of the precompile frame", "subject table (API name -> subject argument position) maintained in the checker"}
 	r.Rule("R1", "subject argument of value-taking APIs roots only at contract.Caller()", 12, "subject call sites in x/*/precompile")
 	r.Rule("R2", "call-data `from` accepted only behind the allowance check-and-decrement", 3, "share-transfer call sites + allowance routine")
 	r.Rule("R3", "dispatchers: readonly guard and governance switch dominate method.Run; go-ethereum readOnly flags", 8, "2 dispatchers x 3 + 4 EVM call kinds")
+	r.Rule("R6", "the precompile account pays out exactly msg.value of the current call: the pay-out routine's amount is contract.Value() or guarded equal to it", 2, "call sites of routines that move coins out of the precompile's own account")
+	e.c10PayoutEqualsValue(r)
 	r.Rule("R5", "a queued withdrawal keeps its owner: a fee increase re-adds the record it read, unchanged in id / sender / destination / token (C05.R5 identity)", 1, "C05 obligations")
 	{
 		sub05 := NewReport("C05", "other")
@@ -1430,5 +1432,104 @@ func (e *Engine) storeAliasRule(r *Report, rule string) {
 	}
 	if n == 0 {
 		r.Fail(rule, "store reads", "", "UNRESOLVED-ANCHOR: no KVStore read found")
+	}
+}
+
+// c10PayoutEqualsValue: R6. Pay-out routine = a function of a precompile package that moves coins from the precompile's own
+// address (an account argument rooted at a GetAddress() call) with an amount rooted at one of its *big.Int parameters.
+func (e *Engine) c10PayoutEqualsValue(r *Report) {
+	nsites := 0
+	for _, fn := range e.Funcs {
+		if fn.Parent() != nil || !strings.HasSuffix(fnPkgPath(fn), "/precompile") || isAuxPkg(fnPkgPath(fn)) {
+			continue
+		}
+		var amtPar *ssa.Parameter
+		allCalls(fn, func(c ssa.CallInstruction) {
+			if !strings.HasPrefix(callName(c), "SendCoins") {
+				return
+			}
+			own := false
+			for _, a := range c.Common().Args {
+				e.Slice(a, SliceOpts{MaxDepth: 5}, func(x ssa.Value) Verdict {
+					if cc0, ok := x.(*ssa.Call); ok && callName(cc0) == "GetAddress" {
+						own = true
+						return Accept
+					}
+					return Continue
+				})
+			}
+			if !own {
+				return
+			}
+			for _, a := range c.Common().Args {
+				if !isCoinsType(a.Type()) && !isCoinType(a.Type()) {
+					continue
+				}
+				for _, p := range fn.Params {
+					if strings.HasSuffix(p.Type().String(), "big.Int") && e.rootsParam(a, p) {
+						amtPar = p
+					}
+				}
+			}
+		})
+		if amtPar == nil {
+			continue
+		}
+		pidx := paramIndex(amtPar)
+		for _, cs := range e.CallSites(fn) {
+			if isAuxPkg(fnPkgPath(cs.Caller)) {
+				continue
+			}
+			nsites++
+			ck := e.CanonFnKey(rootFn(cs.Caller)) + " -> " + fn.Name() + " amount"
+			args := cs.Call.Common().Args
+			if pidx >= len(args) {
+				r.Fail("R6", ck, e.InstrPos(cs.Call), "UNRESOLVED-ANCHOR: amount argument not found")
+				continue
+			}
+			amt := args[pidx]
+			isValue := func(v ssa.Value) bool {
+				res := e.Slice(v, SliceOpts{MaxDepth: 5}, func(x ssa.Value) Verdict {
+					if cc0, ok := x.(*ssa.Call); ok && callName(cc0) == "Value" && strings.HasSuffix(recvTypeName(cc0), "vm.Contract") {
+						return Accept
+					}
+					return Continue
+				})
+				return res.AllAccepted()
+			}
+			if isValue(amt) {
+				r.Ok("R6", ck, e.InstrPos(cs.Call), "the amount is contract.Value()")
+				continue
+			}
+			ak := vkey(amt, 0)
+			okEq := false
+			for _, g := range GuardsOf(cs.Call) {
+				ci, ok := NormCond(g)
+				if !ok || ci.Op != "==" || ci.X == nil || ci.Y == nil {
+					continue
+				}
+				// amount.Cmp(value) == 0 on the path to the call
+				cmp, isCmp := stripConv(ci.X).(*ssa.Call)
+				k, isK := constInt(ci.Y)
+				if !isCmp || !isK || k != 0 || callName(cmp) != "Cmp" {
+					continue
+				}
+				ca := callArgs(cmp)
+				if len(ca) != 2 {
+					continue
+				}
+				if (vkey(ca[0], 0) == ak && isValue(ca[1])) || (vkey(ca[1], 0) == ak && isValue(ca[0])) {
+					okEq = true
+				}
+			}
+			if okEq {
+				r.Ok("R6", ck, e.InstrPos(cs.Call), "amount.Cmp(contract.Value()) == 0 holds on every path to the pay-out")
+			} else {
+				r.Fail("R6", ck, e.InstrPos(cs.Call), "coins are paid out of the precompile's own account for an amount that is not tied to the value attached to this call (no dominating `amount.Cmp(msg.value) != 0 -> error`): the difference comes from what other callers left on that account")
+			}
+		}
+	}
+	if nsites == 0 {
+		r.Fail("R6", "pay-out sites", "", "UNRESOLVED-ANCHOR: no call of a routine that moves coins out of the precompile's own account")
 	}
 }
